@@ -157,6 +157,59 @@ def gc_dependent(out, tier):
     return n, bad
 
 
+FAILING = {
+    "fails 120 calls deep": "function dig(int n, int[] a) -> int { if (n == 0) { return a[7]; } return dig(n - 1, a) + 1; }\n"
+                            "function main() -> void { int[] a = {1, 2}; echo(\"start\"); echo(dig(120, a)); }\n",
+    "fails or succeeds 60 calls deep depending on a coin": "function dig(int n, int[] a, int k) -> int { if (n == 0) { return a[k]; } return dig(n - 1, a, k) + 1; }\n"
+                            "function main() -> void { qubit c; h(c); bit b = measure c; int[] a = {1, 2}; int k = 1; if (b == 1b) { k = 7; } echo(b); echo(dig(60, a, k)); }\n",
+    "fails inside a constructor chain and a method": "class P { public int v; public constructor(int d, int[] a) -> P { if (d == 0) { this.v = a[9]; } else { P q = new P(d - 1, a); this.v = q.v + 1; } } }\n"
+                            "function main() -> void { int[] a = {1}; P p = new P(40, a); echo(p.v); }\n",
+    "null dereference in a destructor-owning object graph": "class N { public N next; public int id; public constructor(int i) -> N { this.id = i; } public destructor() -> void { echo(\"~\" + id); } }\n"
+                            "function walk(N n, int d) -> int { if (d == 0) { return n.next.next.id; } return walk(n, d - 1) + 1; }\n"
+                            "function main() -> void { N a = new N(1); a.next = new N(2); echo(walk(a, 30)); }\n",
+}
+
+
+def failing_executions(out, tier):
+    """one analysed program executed repeatedly by a host that carries on after a failed execution: every execution ends the way a
+    fresh run with the same draws ends (same status, same diagnostic, same output before it)"""
+    jobs, meta = [], {}
+    reps = 12 if tier == "quick" else 40
+    for name, src in FAILING.items():
+        coins = [0.25 if k % 3 else 0.75 for k in range(reps)]
+        for d in (0.25, 0.75):
+            meta[len(jobs)] = (name, "fresh", d)
+            jobs.append({"id": len(jobs), "src": src, "draws": [d] * 4, "gc": "none"})
+        meta[len(jobs)] = (name, "multi", coins)
+        jobs.append({"id": len(jobs), "src": src, "draws_by_shot": [[d] * 4 for d in coins], "shots": reps, "keep_going": True, "gc": "none", "reanalyse": False})
+    res = runner.run_jobs(jobs)
+    fresh = {}
+    for j, (name, kind, d) in meta.items():
+        if kind == "fresh":
+            sh = res[j]["shots"][0] if res[j].get("shots") else {"status": res[j]["status"], "echo": [], "what": res[j].get("what", "")}
+            fresh[(name, d)] = (sh["status"], sh.get("what", "").strip(), sh.get("echo", []))
+    n = bad = 0
+    for j, (name, kind, coins) in meta.items():
+        if kind != "multi":
+            continue
+        r = res[j]
+        shots = r.get("shots", [])
+        if len(shots) != len(coins):
+            bad += 1
+            out.violation("program that %s: %d of %d executions were carried out (%s %s)" % (name, len(shots), len(coins), r["status"], r.get("what", "")[:200]),
+                          {"what": "executions missing", "program": jobs[j]["src"], "result": r}, "fail%d" % j)
+            continue
+        for k, (sh, d) in enumerate(zip(shots, coins)):
+            n += 1
+            got = (sh["status"], sh.get("what", "").strip(), sh.get("echo", []))
+            if got != fresh[(name, d)]:
+                bad += 1
+                msg = "program that %s: execution %d of %d ends with %s; a fresh run with the same draws ends with %s" % (name, k + 1, len(coins), got, fresh[(name, d)])
+                out.violation(msg, {"what": msg, "program": jobs[j]["src"], "execution": k + 1, "result": sh}, "fail%d" % j)
+                break
+    return n, bad
+
+
 def parse_table(lines):
     """(variable, outcome) -> count from the CLI's aggregate table"""
     got = collections.Counter()
@@ -333,6 +386,9 @@ def run(tier, seed):
     ncc, badcc = cli_conditional(out, tier)
     cli_checked += ncc
     badrd += badcc
+    nfe, badfe = failing_executions(out, tier)
+    nrd += nfe
+    badrd += badfe
     for tag, msg, src, r in bad[:8]:
         out.violation(msg, {"what": msg, "program": src, "result": r}, "p%s" % tag)
     cov = {"evaluations": shots_checked + cli_checked + nrd, "run_dependent_shots_compared": nrd, "distinct_nontrivial": len({s for s in srcs.values()}) + len(behs),
@@ -350,7 +406,8 @@ def run(tier, seed):
                    "Collector-dependent programs (an unreachable cycle keeping alive an object with a destructor and a qubit, 5..70 further allocations, "
                    "with and without an object held by a static) run under the allocation-driven collection rule: each of 4 executions must equal a fresh run. "
                    "Programs whose tracked declarations sit in branches / functions / loops / objects reached depending on a measurement run through the real CLI "
-                   "(default echo, --echo=none, --echo=all) with coins that make some shots skip them: the aggregate table is the sum of the per-shot tables."}
+                   "(default echo, --echo=none, --echo=all) with coins that make some shots skip them: the aggregate table is the sum of the per-shot tables. "
+                   "Programs that end in a runtime error deep inside calls / constructors are executed 12 (40) times by a host that carries on: every execution ends like a fresh run."}
     vlib.write_evidence(PID, tier, seed, "exploration", cov,
                         ["the abstract syntax tree is compared through behaviour (re-analysis + re-execution), not structurally"],
                         time.time() - t0, len(bad) + badrd)
